@@ -802,6 +802,61 @@ func $NB(a int) int {
 	}
 	return a*10 + n
 }`, entries: []*Entry{callEntry("$NB", 1, nil)}},
+	// terms written by hand over the runtime API in a processed file: the optimiser's Delay elision must leave them alone when
+	// an argument of the combinator call does something (it would run when the term is BUILT instead of when the block runs)
+	{name: "hand-written-seq-terms-next-to-generators", tags: []string{"eta-shape"}, imports: []string{`hs "github.com/goghcrow/go-co/seq"`}, decls: byGen + `
+var $NLog []string
+
+func $NMkCond(n *int) func() bool {
+	$NLog = append($NLog, "mkCond")
+	return func() bool { *n--; return *n >= 0 }
+}
+
+func $NManual(n *int) hs.Iterator[int] {
+	return hs.Start(hs.Delay(func() hs.Seq[int] {
+		return hs.While($NMkCond(n), hs.Bind(1, func() hs.Seq[int] { return hs.Normal[int]() }))
+	}))
+}
+
+func $NBody(k *int) hs.Seq[int] {
+	*k++
+	return hs.Bind(*k, func() hs.Seq[int] { return hs.Normal[int]() })
+}
+
+func $NHand() hs.Iterator[int] {
+	i, k := 0, 0
+	return hs.Start(hs.While(func() bool { i++; return i <= 3 },
+		hs.Delay(func() hs.Seq[int] {
+			return hs.Combine($NBody(&k), hs.Normal[int]())
+		})))
+}
+
+func $NLazy(v *int) hs.Iterator[int] {
+	return hs.Start(hs.Delay(func() hs.Seq[int] {
+		return hs.Delay(func() hs.Seq[int] { return hs.Bind(*v, hs.Normal[int]) })
+	}))
+}
+
+func $NB(a int) (res int) {
+	$NLog = nil
+	n := 2
+	it := $NManual(&n)
+	res = len($NLog)
+	for it.MoveNext() {
+		res = res*10 + it.Current()
+	}
+	res = res*10 + len($NLog)
+	for h := $NHand(); h.MoveNext(); {
+		res = res*10 + h.Current()
+	}
+	v := a
+	lz := $NLazy(&v)
+	v += 5
+	for lz.MoveNext() {
+		res = res*10 + lz.Current()
+	}
+	return
+}`, entries: []*Entry{callEntry("$NB", 1, nil)}},
 	{name: "range-over-func-outside-generators", decls: byGen + `
 func $NSeq(n int) func(func(int) bool) {
 	return func(y func(int) bool) {
